@@ -86,6 +86,52 @@ def logZ (Lx Ly Lz : Nat) : List Op :=
 /-- `get_deformation(location, deformation_name, **kwargs)` -/
 def getDeformation (name : String) (loc : Coord) : Option PauliMap := Rhombic.getDeformation name loc
 
+/-! ### an explicit family of `n − k` independent generators
+
+The family of the theorem `generators_independent` / `valid_code` (proved independent for every even
+size `≥ 2` in `Proofs/LatRhombicToricCodeRank*.lean`; also evaluated on the implementation's
+parity-check matrix by the correspondence stream `rank-family`).
+Cubes: all coloured cubes but `(3, 1, 1)` (their product is the identity).
+Triangles, by the column `x` of the vertex:
+* `0 < x < 2Lx−2`: axis 1 at the vertices with `(x+y+z) % 4 = 2`, all of axis 2 and 3;
+* `x = 2Lx−2`: all of axis 2 and 3, all of axis 1 but the one at `(2Lx−2, 0, 0)`;
+* `x = 0` (a spanning tree of the corners of the y-z torus): the corner pointing to `(−y, +z)` at every
+  vertex (axis 1 / axis 2 for `(y+z) % 4 = 0 / 2`), the corner pointing to `(−y, −z)` at the vertices
+  with `z ≥ 2` (axis 2 / axis 1), and the corner pointing to `(+y, +z)` in the top layer `z = 2Lz−2`
+  for `y < 2Ly−2` (axis 0 / axis 3). -/
+
+def par0 : Int → Int → Int → Bool := fun x y z => (x + y + z) % 4 == 0
+def par2 : Int → Int → Int → Bool := fun x y z => (x + y + z) % 4 == 2
+
+def selCubes (Lx Ly Lz : Nat) : List Coord :=
+  (grid3 (pyRange2 1 (2*Lx)) (pyRange2 1 (2*Ly)) (pyRange2 1 (2*Lz)) cubeKeep).filter (· != [3, 1, 1])
+
+/-- the vertices of a block of columns -/
+def verts (xs : List Int) (Ly Lz : Nat) (p : Int → Int → Int → Bool) : List Coord :=
+  grid3 xs (pyRange2 0 (2*Ly)) (pyRange2 0 (2*Lz)) p
+
+def selBulk (Lx Ly Lz : Nat) : List Coord :=
+  (verts (pyRange2 2 (2*Lx-2)) Ly Lz par2).map (fun c => (1 : Int) :: c) ++
+  ((verts (pyRange2 2 (2*Lx-2)) Ly Lz allTrue).map (fun c => (2 : Int) :: c) ++
+   (verts (pyRange2 2 (2*Lx-2)) Ly Lz allTrue).map (fun c => (3 : Int) :: c))
+
+def selLast (Lx Ly Lz : Nat) : List Coord :=
+  (verts (pyRange2 (2*Lx-2) (2*Lx)) Ly Lz allTrue).map (fun c => (2 : Int) :: c) ++
+  ((verts (pyRange2 (2*Lx-2) (2*Lx)) Ly Lz allTrue).map (fun c => (3 : Int) :: c) ++
+   ((verts (pyRange2 (2*Lx-2) (2*Lx)) Ly Lz allTrue).map (fun c => (1 : Int) :: c)).filter
+      (· != [1, 2*(Lx:Int)-2, 0, 0]))
+
+def selFirst (_Lx Ly Lz : Nat) : List Coord :=
+  (verts (pyRange2 0 2) Ly Lz par0).map (fun c => (1 : Int) :: c) ++
+  ((verts (pyRange2 0 2) Ly Lz par2).map (fun c => (2 : Int) :: c) ++
+   ((grid3 (pyRange2 0 2) (pyRange2 0 (2*Ly)) (pyRange2 2 (2*Lz)) par0).map (fun c => (2 : Int) :: c) ++
+    ((grid3 (pyRange2 0 2) (pyRange2 0 (2*Ly)) (pyRange2 2 (2*Lz)) par2).map (fun c => (1 : Int) :: c) ++
+     ((grid3 (pyRange2 0 2) (pyRange2 0 (2*Ly-2)) (pyRange2 (2*Lz-2) (2*Lz)) par2).map (fun c => (3 : Int) :: c) ++
+      (grid3 (pyRange2 0 2) (pyRange2 0 (2*Ly-2)) (pyRange2 (2*Lz-2) (2*Lz)) par0).map (fun c => (0 : Int) :: c)))))
+
+def selStabs (Lx Ly Lz : Nat) : List Coord :=
+  selCubes Lx Ly Lz ++ (selBulk Lx Ly Lz ++ (selLast Lx Ly Lz ++ selFirst Lx Ly Lz))
+
 def lattice (Lx Ly Lz : Nat) : Lattice :=
   { qubits := qubits Lx Ly Lz, stabs := stabs Lx Ly Lz, getStab := getStab Lx Ly Lz,
     logX := logX Lx Ly Lz, logZ := logZ Lx Ly Lz }
